@@ -93,6 +93,20 @@ def run_canvas(case, env, res):
             res.violation(key + ":full-row", "untrimmed row %d: cursor %d (expected %d) sgr=%s anomalies=%s (%s)" % (i, vt.c, C, vt.sgr_default(), vt.anomalies(), case), case)
             return
         full.append((row_view(vt, C, text), vt))
+    if case.get("resize_between"):
+        # the canvas stays alive (urwid caches one canvas per widget and size) while the same
+        # widget -- and therefore the same image -- is rendered at another size, or the
+        # image is sized by the application; trimming the old canvas afterwards still
+        # crops what that canvas shows
+        other = (C + rnd.randint(1, 4), R + rnd.randint(0, 3)) if len(size) == 2 else (C + rnd.randint(1, 5),)
+        try:
+            if rnd.random() < 0.7:
+                kept = w.render(other)  # noqa: F841
+            else:
+                w._ti_image.set_size(width=max(1, C // 2))
+            res.count("canvases trimmed after their image was sized anew")
+        except Exception:
+            pass
     ntr = 0
     for tl in range(C):
         for cols in range(1, C - tl + 1):
@@ -223,6 +237,7 @@ def gen(rnd):
         upscale=rnd.random() < 0.5,
         size=[rnd.randint(1, 14), rnd.randint(1, 9)] if box else [rnd.randint(1, 14)],
         seed=rnd.getrandbits(32),
+        resize_between=rnd.random() < 0.3,
     )
 
 
